@@ -550,6 +550,21 @@ def accessor_contained(ctx):
             continue
         # accessors supplied by the application and the adapters' value codecs (decode of what the peer wrote, encode of what is read)
         calls = [c for c in calls_in(m) if dotted(c.func) in ('self.value.read', 'self.value.write', 'self.decode_value', 'self.encode_value')]
+        # application listeners of the read / write events run inside the request too
+        emits = [c for c in calls_in(m) if dotted(c.func) == 'self.emit']
+        for j, c in enumerate(emits):
+            n += 1
+            cont = False
+            a, prev = getattr(c, '_parent', None), c
+            while a is not None and a is not m:
+                if isinstance(a, ast.Try) and any(prev is s_ or any(prev is x for x in ast.walk(s_)) for s_ in a.body):
+                    for h in a.handlers:
+                        names = {text(t).split('.')[-1] for t in (h.type.elts if isinstance(h.type, ast.Tuple) else [h.type])} if h.type is not None else {'<bare>'}
+                        if names & {'Exception', 'BaseException', '<bare>'} and not any(isinstance(x, ast.Raise) and x.exc is None for x in ast.walk(h)):
+                            cont = True
+                prev, a = a, getattr(a, '_parent', None)
+            R.check(cont, rule, f'bumble.att.Attribute.{mname} | event listeners #{j + 1}', 'emit() of the read / write event is inside try/except Exception (a failing listener is logged, or turned into an ATT error)',
+                    'an application listener of the attribute\'s read / write event that raises escapes the task-wrapped request handler: the request is never answered', p.loc(c))
         for i, c in enumerate(calls):
             n += 1
             ok = False
@@ -568,7 +583,7 @@ def accessor_contained(ctx):
                 prev, a = a, getattr(a, '_parent', None)
             R.check(ok, rule, f'bumble.att.Attribute.{mname} | accessor call #{i + 1}', 'inside try/except Exception that re-raises as ATT_Error',
                     'an exception other than ATT_Error raised by a value accessor escapes the permission gate: the task-wrapped request handler dies without answering (the client times out)', p.loc(c))
-    R.check(n >= 6, rule, 'bumble.att.Attribute | accessor calls', f'{n} accessor / codec calls', f'only {n} accessor / codec calls found')
+    R.check(n >= 8, rule, 'bumble.att.Attribute | accessor calls', f'{n} accessor / codec calls', f'only {n} accessor / codec calls found')
 
 
 RULES = [
